@@ -405,6 +405,8 @@ where
         {
             return None;
         }
+        #[cfg(oxidd_verif)]
+        oxidd_core::verif::yield_point(7);
         self.bucket(operator, operands)
             .try_lock()?
             .get(manager, operator, operands)
@@ -428,6 +430,8 @@ where
         {
             return;
         }
+        #[cfg(oxidd_verif)]
+        oxidd_core::verif::yield_point(8);
         if let Some(mut entry) = self.bucket(operator, operands).try_lock() {
             entry.set(operator, operands, values);
         }
